@@ -280,6 +280,22 @@ class SymbolTable(dict):
         name_parts = self.format_lookup_name(key)  # pylint: disable=assignment-from-no-return
         super().__setitem__(name_parts, value.clone())
 
+    def __delitem__(self, key):
+        super().__delitem__(self.format_lookup_name(key))
+
+    def pop(self, key, *args):
+        """
+        Remove a symbol's entry and return it
+
+        Parameters
+        ----------
+        key : `str`
+            Name of the type or symbol
+        default : optional
+            Return this value if :attr:`key` is not found in the table instead of raising :any:`KeyError`
+        """
+        return super().pop(self.format_lookup_name(key), *args)
+
     def __hash__(self):
         return hash(tuple(self.keys()))
 
